@@ -24,7 +24,7 @@ type Case struct {
 var defects = []string{"import-cycle", "import-self", "include-cycle", "typedef-cycle-used", "typedef-cycle-unused", "typedef-self",
 	"grouping-cycle-direct", "grouping-cycle-nested", "grouping-cycle-unused", "grouping-cycle-via-choice", "identity-cycle", "identity-self", "feature-cycle", "feature-self",
 	"dangling-import", "dangling-include", "dangling-type", "dangling-uses", "dangling-base", "dangling-if-feature", "dangling-prefix", "belongs-to-missing",
-	"typedef-cycle-cross-scope", "grouping-cycle-long"}
+	"typedef-cycle-cross-scope", "grouping-cycle-long", "grouping-cycle-via-uses-augment", "grouping-cycle-via-uses-augment-nested"}
 
 func str(s string) *sg.TypeSpec { return &sg.TypeSpec{Name: s} }
 
@@ -84,6 +84,21 @@ func inject(mods []*sg.Mod, d string, pick func(n int) int) {
 		m.Groupings = append(m.Groupings, &sg.Grouping{Name: "cyc-ga", Kids: []*sg.Node{{Kind: "choice", Name: "cyc-ch", Kids: []*sg.Node{{Kind: "case", Name: "cyc-cs", Kids: []*sg.Node{{Kind: "uses", Name: ref("cyc-gb")}}}}}}},
 			&sg.Grouping{Name: "cyc-gb", Kids: []*sg.Node{{Kind: "container", Name: "cyc-c2", Kids: []*sg.Node{{Kind: "uses", Name: ref("cyc-ga")}}}}})
 		m.Nodes[0].Kids = append(m.Nodes[0].Kids, &sg.Node{Kind: "uses", Name: ref("cyc-gb")})
+	case "grouping-cycle-via-uses-augment":
+		// the closing uses of the cycle sits inside the augment of another uses
+		m.Groupings = append(m.Groupings, &sg.Grouping{Name: "cyc-gh", Kids: []*sg.Node{{Kind: "container", Name: "cyc-x"}}},
+			&sg.Grouping{Name: "cyc-ga", Kids: []*sg.Node{{Kind: "container", Name: "cyc-c", Kids: []*sg.Node{{Kind: "uses", Name: ref("cyc-gh"),
+				Augments: []*sg.Augment{{Target: "cyc-x", Kids: []*sg.Node{{Kind: "uses", Name: ref("cyc-ga")}}}}}}}}})
+		m.Nodes[0].Kids = append(m.Nodes[0].Kids, &sg.Node{Kind: "uses", Name: ref("cyc-ga")})
+	case "grouping-cycle-via-uses-augment-nested":
+		// ... two groupings, the uses nested in a list inside the augment
+		m.Groupings = append(m.Groupings, &sg.Grouping{Name: "cyc-gh", Kids: []*sg.Node{{Kind: "container", Name: "cyc-x"}}},
+			&sg.Grouping{Name: "cyc-ga", Kids: []*sg.Node{{Kind: "uses", Name: ref("cyc-gh"),
+				Augments: []*sg.Augment{{Target: "cyc-x", Kids: []*sg.Node{{Kind: "list", Name: "cyc-l", Key: "k", Kids: []*sg.Node{{Kind: "leaf", Name: "k", Type: str("string")}, {Kind: "uses", Name: ref("cyc-gb")}}}}}}}}},
+			&sg.Grouping{Name: "cyc-gb", Kids: []*sg.Node{{Kind: "container", Name: "cyc-c2", Kids: []*sg.Node{{Kind: "uses", Name: ref("cyc-ga")}}}}})
+		if pick(2) == 0 {
+			m.Nodes[0].Kids = append(m.Nodes[0].Kids, &sg.Node{Kind: "uses", Name: ref("cyc-gb")})
+		}
 	case "grouping-cycle-long":
 		names := []string{"cyc-g1", "cyc-g2", "cyc-g3", "cyc-g4"}
 		for i, n := range names {
